@@ -2,8 +2,9 @@ package main
 
 import (
 	"fmt"
-	"os"
+	"go/ast"
 	"go/token"
+	"os"
 	"go/types"
 	"sort"
 	"strings"
@@ -104,6 +105,148 @@ func stateFlagLoad(v ssa.Value) string {
 	return ""
 }
 
+// flagPredicate: fn is a pure boolean function of the two release flags of its receiver's state (no stores, no
+// calls; only flag loads, branches on them, constants and phis), e.g. autoRelease() = releaseState || releaseWriter.
+// The truth table is indexed by world = rs<<1 | rw and obtained by following the CFG in each of the four worlds.
+func flagPredicate(fn *ssa.Function) (table [4]bool, ok bool) {
+	if fn == nil || fn.Blocks == nil || fn.Signature.Results().Len() != 1 {
+		return table, false
+	}
+	if b, isB := fn.Signature.Results().At(0).Type().Underlying().(*types.Basic); !isB || b.Kind() != types.Bool {
+		return table, false
+	}
+	pure := true
+	allInstrs(fn, func(i ssa.Instruction) {
+		switch x := i.(type) {
+		case *ssa.Store, ssa.CallInstruction, *ssa.MapUpdate, *ssa.Send:
+			_ = x
+			pure = false
+		}
+	})
+	if !pure {
+		return table, false
+	}
+	for world := 0; world < 4; world++ {
+		rs, rw := world&2 != 0, world&1 != 0
+		var eval func(v ssa.Value, from, at *ssa.BasicBlock, depth int) (bool, bool)
+		eval = func(v ssa.Value, from, at *ssa.BasicBlock, depth int) (bool, bool) {
+			if depth > 8 {
+				return false, false
+			}
+			if k, isK := v.(*ssa.Const); isK && k.Value != nil {
+				switch k.Value.String() {
+				case "true":
+					return true, true
+				case "false":
+					return false, true
+				}
+				return false, false
+			}
+			switch stateFlagLoad(v) {
+			case "RS":
+				return rs, true
+			case "RW":
+				return rw, true
+			}
+			switch x := v.(type) {
+			case *ssa.UnOp:
+				if x.Op == token.NOT {
+					r, good := eval(x.X, from, at, depth+1)
+					return !r, good
+				}
+			case *ssa.Phi:
+				if x.Block() == at && from != nil {
+					for j, p := range at.Preds {
+						if p == from {
+							return eval(x.Edges[j], nil, nil, depth+1)
+						}
+					}
+				}
+			}
+			return false, false
+		}
+		var from *ssa.BasicBlock
+		b := fn.Blocks[0]
+		decided := false
+		for steps := 0; steps < 64 && !decided; steps++ {
+			last := b.Instrs[len(b.Instrs)-1]
+			switch x := last.(type) {
+			case *ssa.Return:
+				r, good := eval(x.Results[0], from, b, 0)
+				if !good {
+					return table, false
+				}
+				table[world] = r
+				decided = true
+			case *ssa.If:
+				r, good := eval(x.Cond, from, b, 0)
+				if !good {
+					return table, false
+				}
+				from = b
+				if r {
+					b = b.Succs[0]
+				} else {
+					b = b.Succs[1]
+				}
+			case *ssa.Jump:
+				from = b
+				b = b.Succs[0]
+			default:
+				return table, false
+			}
+		}
+		if !decided {
+			return table, false
+		}
+	}
+	return table, true
+}
+
+// refineByPredicate: the predicate call result is known to be `truth` on this edge: worlds inconsistent with the
+// flag facts already known or with the result are excluded; what the remaining worlds share becomes a fact.
+func refineByPredicate(table [4]bool, truth bool, f Facts) {
+	var worlds []int
+	for w := 0; w < 4; w++ {
+		rs, rw := w&2 != 0, w&1 != 0
+		if (f["RS1"] && !rs) || (f["RS0"] && rs) || (f["RW1"] && !rw) || (f["RW0"] && rw) {
+			continue
+		}
+		if table[w] == truth {
+			worlds = append(worlds, w)
+		}
+	}
+	if len(worlds) == 0 {
+		f["BOT"] = true
+		return
+	}
+	allRS1, allRS0, allRW1, allRW0 := true, true, true, true
+	for _, w := range worlds {
+		if w&2 != 0 {
+			allRS0 = false
+		} else {
+			allRS1 = false
+		}
+		if w&1 != 0 {
+			allRW0 = false
+		} else {
+			allRW1 = false
+		}
+	}
+	if allRS1 {
+		f["RS1"] = true
+	}
+	if allRS0 {
+		f["RS0"] = true
+	}
+	if allRW1 {
+		f["RW1"] = true
+	}
+	if allRW0 {
+		f["RW0"] = true
+	}
+}
+
 type wsum struct {
 	all     Facts // facts at all returns (intersection)
 	okRet   Facts // facts at returns whose error result may be nil (nil map = no such return)
@@ -126,6 +269,8 @@ type wAnalysis struct {
 	flagWriters map[*ssa.Function]bool
 	retSeen     map[*ssa.Return]bool
 	retBad      map[*ssa.Return][]string
+	// results of calls to pure flag predicates (autoRelease() = releaseState || releaseWriter): truth tables
+	preds map[ssa.Value][4]bool
 }
 
 func errorResultIndex(sig *types.Signature) int {
@@ -298,6 +443,11 @@ func (a *wAnalysis) analyse(fn *ssa.Function, entry Facts, nonNilParams map[*ssa
 				if pre != "" {
 					delete(f, pre+"0")
 					delete(f, pre+"1")
+					for k := range f {
+						if strings.HasPrefix(k, "fresh:") {
+							delete(f, k)
+						}
+					}
 					if c, ok := x.Val.(*ssa.Const); ok && c.Value != nil {
 						if c.Value.String() == "true" {
 							f[pre+"1"] = true
@@ -341,6 +491,37 @@ func (a *wAnalysis) analyse(fn *ssa.Function, entry Facts, nonNilParams map[*ssa
 			callee := calleeOf(x)
 			if _, isDefer := x.(*ssa.Defer); isDefer {
 				return
+			}
+			// a flag read through a predicate helper is "fresh" until the next call that could change the flags
+			for k := range f {
+				if strings.HasPrefix(k, "fresh:") {
+					delete(f, k)
+				}
+			}
+			if tbl, isPred := flagPredicate(callee); isPred {
+				if v, ok := x.(*ssa.Call); ok {
+					a.preds[v] = tbl
+					// value of the predicate in the worlds still possible here
+					var vals [2]bool
+					for w := 0; w < 4; w++ {
+						rs, rw := w&2 != 0, w&1 != 0
+						if (f["RS1"] && !rs) || (f["RS0"] && rs) || (f["RW1"] && !rw) || (f["RW0"] && rw) {
+							continue
+						}
+						if tbl[w] {
+							vals[1] = true
+						} else {
+							vals[0] = true
+						}
+					}
+					if vals[1] && !vals[0] {
+						f["pv:"+v.Name()+":1"] = true
+					}
+					if vals[0] && !vals[1] {
+						f["pv:"+v.Name()+":0"] = true
+					}
+					defer func() { f["fresh:"+v.Name()] = true }()
+				}
 			}
 			if callee != nil && !touchesWriter(callee) && a.flagWriters[callee] {
 				for _, k := range []string{"RW0", "RW1", "RS0", "RS1"} {
@@ -406,6 +587,39 @@ func (a *wAnalysis) analyse(fn *ssa.Function, entry Facts, nonNilParams map[*ssa
 		}
 	}
 	fl.Edge = func(from *ssa.BasicBlock, k int, f Facts) {
+		// error results merged by a phi (result, err = w.endValue() / w.endList() / ... followed by one shared
+		// `if err != nil`): the conditional facts of the call on this edge are re-keyed to the phi, so that the meet
+		// at the join keeps what every incoming call guarantees
+		if to := from.Succs[k]; len(to.Preds) > 1 {
+			for j, p := range to.Preds {
+				if p != from {
+					continue
+				}
+				for _, ins := range to.Instrs {
+					phi, ok := ins.(*ssa.Phi)
+					if !ok {
+						break
+					}
+					var call *ssa.Call
+					switch v := phi.Edges[j].(type) {
+					case *ssa.Call:
+						call = v
+					case *ssa.Extract:
+						call, _ = v.Tuple.(*ssa.Call)
+					}
+					if call == nil {
+						continue
+					}
+					for _, pre := range []string{"ok:", "nz:"} {
+						for key := range f {
+							if strings.HasPrefix(key, pre+call.Name()+":") {
+								f[pre+phi.Name()+":"+strings.TrimPrefix(key, pre+call.Name()+":")] = true
+							}
+						}
+					}
+				}
+			}
+		}
 		cond := ifCond(from)
 		if cond == nil {
 			return
@@ -424,6 +638,16 @@ func (a *wAnalysis) analyse(fn *ssa.Function, entry Facts, nonNilParams map[*ssa
 					f["BOT"] = true
 				}
 				f[yes] = true
+			}
+			if tbl, isPred := a.preds[cv]; isPred {
+				// the value the predicate had when it was called
+				if (truth && f["pv:"+cv.Name()+":0"]) || (!truth && f["pv:"+cv.Name()+":1"]) {
+					f["BOT"] = true
+				}
+				// and, while nothing could have changed the flags since, what its value says about them
+				if f["fresh:"+cv.Name()] {
+					refineByPredicate(tbl, truth, f)
+				}
 			}
 		}
 		for _, r := range relsOf(Cond{cond, k == 0}) {
@@ -461,12 +685,16 @@ func (a *wAnalysis) analyse(fn *ssa.Function, entry Facts, nonNilParams map[*ssa
 				}
 			default:
 				// error result of a writer call: nil => facts of the callee's nil-result returns
-				var call *ssa.Call
+				var call ssa.Value // the call, or the phi merging the error results of several calls
 				switch v := x.(type) {
 				case *ssa.Call:
 					call = v
 				case *ssa.Extract:
-					call, _ = v.Tuple.(*ssa.Call)
+					if cv, ok := v.Tuple.(*ssa.Call); ok {
+						call = cv
+					}
+				case *ssa.Phi:
+					call = v
 				}
 				if call != nil && isNil {
 					for _, kk := range wFacts {
@@ -617,7 +845,7 @@ func (a *wAnalysis) analyse(fn *ssa.Function, entry Facts, nonNilParams map[*ssa
 var lastWA *wAnalysis
 
 func runR12_1(c *Ctx, r *R) {
-	a := &wAnalysis{c: c, memo: map[string]*wsum{}, callSum: map[ssa.CallInstruction]*wsum{}, retSeen: map[*ssa.Return]bool{}, retBad: map[*ssa.Return][]string{}, deref: map[ssa.Instruction][]string{}, seen: map[ssa.Instruction]bool{}, glob: map[*ssa.Global]bool{}}
+	a := &wAnalysis{c: c, memo: map[string]*wsum{}, callSum: map[ssa.CallInstruction]*wsum{}, retSeen: map[*ssa.Return]bool{}, retBad: map[*ssa.Return][]string{}, deref: map[ssa.Instruction][]string{}, seen: map[ssa.Instruction]bool{}, glob: map[*ssa.Global]bool{}, preds: map[ssa.Value][4]bool{}}
 	sp := c.SPkg(writerPkg)
 	if sp == nil {
 		r.Unk(writerPkg, 0, "package not loaded")
@@ -816,11 +1044,16 @@ func runR12_3(c *Ctx, r *R) {
 			cnt++
 			key := fmt.Sprintf("%s/err=#%d", fnKey(f), n)
 			if isNilConst(s.Val) {
-				nm := f.Name()
-				if nm == "Reset" || nm == "reset" {
-					r.OK(key, s.Pos(), "error cleared by %s", nm)
-				} else {
-					r.Bad(key, s.Pos(), "w.err is cleared outside Reset/reset: the first error is no longer sticky")
+				// the error may be cleared in two situations only: by the exported Reset (the API that returns a
+				// writer to its clean state) and on the way into the pool (the clearing dominates the Put of the
+				// same writer, directly or through the only callers of an unexported helper)
+				switch {
+				case f.Name() == "Reset" && f.Signature.Recv() != nil:
+					r.OK(key, s.Pos(), "error cleared by the exported Reset")
+				case clearsForPooling(c, f, s, 0):
+					r.OK(key, s.Pos(), "error cleared on the way into the pool (dominates pools.Pool.Put of this writer)")
+				default:
+					r.Bad(key, s.Pos(), "w.err is cleared outside Reset and not on the way into the pool: the first error is no longer sticky")
 				}
 				return
 			}
@@ -847,6 +1080,42 @@ func runR12_3(c *Ctx, r *R) {
 	if cnt == 0 {
 		r.Unk(writerPkg+".writer.err", 0, "anchor lost: no store to writer.err found")
 	}
+}
+
+// clearsForPooling: instruction at of f (a method whose receiver is the object in question) dominates a
+// pools.Pool.Put of that receiver in f, or f is an unexported helper all of whose call sites do.
+func clearsForPooling(c *Ctx, f *ssa.Function, at ssa.Instruction, depth int) bool {
+	if depth > 3 || len(f.Params) == 0 {
+		return false
+	}
+	recv := ssa.Value(f.Params[0])
+	for _, call := range callsIn(f, false) {
+		if isPoolPut(call.Common()) && call.Common().Args[0] == recv && dominatesInstr(at, call.(ssa.Instruction)) {
+			return true
+		}
+	}
+	if ast.IsExported(f.Name()) {
+		return false
+	}
+	n := 0
+	for _, g := range c.SrcFuncs(relPkg(f.Pkg.Pkg.Path())) {
+		ok := true
+		withAnon(g, func(h *ssa.Function) {
+			for _, call := range callsIn(h, false) {
+				if call.Common().StaticCallee() != f {
+					continue
+				}
+				n++
+				if h.Parent() != nil || len(call.Common().Args) == 0 || len(h.Params) == 0 || call.Common().Args[0] != ssa.Value(h.Params[0]) || !clearsForPooling(c, h, call.(ssa.Instruction), depth+1) {
+					ok = false
+				}
+			}
+		})
+		if !ok {
+			return false
+		}
+	}
+	return n > 0
 }
 
 // entry values: results of stack.pop/peek/peekSecondLast
